@@ -218,3 +218,28 @@ func FanOut(k int, rsize uint8, padP int, padC []int, doubleIn bool) NetSpec {
 	}
 	return n
 }
+
+// Crossbar builds one processor with n inputs and n outputs (i_j -> p0i_j, p0o_j -> o_j) that
+// copies input j to output perm[j]: with n >= 11 every endpoint list contains two-digit indices
+// (p0i10, o11 ...), which any name-ordered or string-compared handling gets wrong.
+func Crossbar(n int, rsize uint8, perm []int) NetSpec {
+	ns := NetSpec{Rsize: rsize, Inputs: n, Outputs: n, Family: fmt.Sprintf("crossbar%d", n)}
+	ps := ProcSpec{R: uint8(procbuilder.Needed_bits(n)), NIn: n, NOut: n}
+	for j := 0; j < n; j++ {
+		ps.InRegs = append(ps.InRegs, j)
+	}
+	ps.OutRegs = make([]int, n)
+	for j := 0; j < n; j++ {
+		o := j
+		if j < len(perm) {
+			o = perm[j]
+		}
+		ps.OutRegs[o] = j
+	}
+	ns.Procs = append(ns.Procs, ps)
+	for j := 0; j < n; j++ {
+		ns.Bonds = append(ns.Bonds, [2]string{fmt.Sprintf("p0i%d", j), fmt.Sprintf("i%d", j)})
+		ns.Bonds = append(ns.Bonds, [2]string{fmt.Sprintf("o%d", j), fmt.Sprintf("p0o%d", j)})
+	}
+	return ns
+}
